@@ -7,7 +7,11 @@
    generate_pipelines / generate_segment_not_heavy_io / generate_segment_from_val and answers [None]
    when the stream ends early, has the wrong kind of draw at some point, or a normal draw was requested
    with another mu than the code passes there. No float arithmetic happens on these paths (only
-   comparisons with exactly representable constants and int()), so nothing is rounded. *)
+   comparisons with exactly representable constants and int()), so nothing is rounded.
+
+   Second reading (gen_run_u, kind 25): the class draw is not an input but COMPUTED, in binary64 as numpy does
+   it, from the uniform double that choice obtains from the bit generator (choice_float) and from the
+   normalised probabilities that __init__ computes from the three user probabilities (prio_probs). *)
 From Coq Require Import ZArith QArith List Bool Arith String.
 Import ListNotations.
 Close Scope Q_scope.
@@ -208,7 +212,9 @@ Fixpoint gen_run (P : gparams) (n : nat) (s : gstate) : option (list (list gpipe
 (* ---- numpy's Generator.choice(a, p=probs) as the inverse CDF of a uniform u in [0,1):
         cdf = p.cumsum(); cdf /= cdf[-1]; idx = cdf.searchsorted(u, side='right')
         = the first index i with u < cdf_i  (the index [length probs] when there is none).
-        ASSUMED to be what numpy does; used only in the choice_* theorems. ---- *)
+        This is the EXACT-arithmetic reading (used in the C15_choice_* theorems); what numpy computes in floats
+        is choice_float below, tied to numpy by the kind-25 correspondence and to choice_of by
+        ChoiceFloatFacts.choice_float_close_to_exact. ---- *)
 Fixpoint choice_from (probs : list Q) (acc u : Q) (i : nat) : nat :=
   match probs with
   | [] => i
@@ -218,6 +224,92 @@ Definition choice_of (probs : list Q) (u : Q) : nat := choice_from probs 0%Q u 0
 
 Fixpoint sumQl (l : list Q) : Q := match l with [] => 0%Q | x :: t => (x + sumQl t)%Q end.
 Definition cdf (probs : list Q) (i : nat) : Q := sumQl (firstn i probs).
+
+(* ---- the same call AS numpy (2.x, Generator.choice with replace=True, size=None, p given) COMPUTES it in
+        binary64, from the ONE double  u = self.random()  it draws from the bit generator:
+            cdf = p.cumsum()                       running float sum, one rounding per addition
+            cdf /= cdf[-1]                         every entry divided by the (old) last one, rounded
+            idx = cdf.searchsorted(u, side='right')  = number of entries <= u = first i with u < cdf_i
+            return a[idx]
+        Established by experiment (603600 draws over 3018 probability triples: same index, same float cdf, and
+        the generator state after choice == the state of a clone after one random()) and CHECKED on every
+        draw of every case of stream G-gen-u (kind 25): the harness predicts u from a clone of the bit
+        generator, the model computes the priority from u, the real generator's priorities are the obs.
+        cumsum copies its first entry; [fadd 0 p] is that copy when p is a double (rnd64 is idempotent). ---- *)
+Fixpoint fcumsum (acc : Q) (l : list Q) : list Q :=
+  match l with
+  | [] => []
+  | p :: t => let a := fadd acc p in a :: fcumsum a t
+  end.
+
+Definition float_cdf (probs : list Q) : list Q :=
+  let c := fcumsum 0%Q probs in
+  let tot := last c 0%Q in
+  map (fun x => fdiv x tot) c.
+
+Fixpoint search_right (c : list Q) (u : Q) (i : nat) : nat :=
+  match c with
+  | [] => i
+  | x :: t => if Qltb u x then i else search_right t u (S i)
+  end.
+
+Definition choice_float (probs : list Q) (u : Q) : nat := search_right (float_cdf probs) u 0.
+
+(* numpy's searchsorted is a binary search (npy_binsearch, side = right): on a sorted array it returns the same
+   index as the linear scan above (ChoiceFloatFacts.bsearch_right_linear; float_cdf is sorted for p >= 0) *)
+Fixpoint bsearch_right (fuel : nat) (c : list Q) (u : Q) (lo hi : nat) : nat :=
+  match fuel with
+  | O => lo
+  | S f =>
+      if (lo <? hi)%nat then
+        let mid := (lo + (hi - lo) / 2)%nat in
+        if Qltb u (nth mid c 0%Q) then bsearch_right f c u lo mid else bsearch_right f c u (S mid) hi
+      else lo
+  end.
+
+(* __init__:  prob_array = np.array([interactive_prob, query_prob, batch_prob])
+              self.priority_probs = prob_array / np.sum(prob_array, dtype=float)
+   np.sum of three doubles is the left-to-right float sum (a0 + a1) + a2 (experiment: 459 triples on which the
+   two association orders differ); then one rounded division per entry *)
+Definition fsum (l : list Q) : Q := fold_left fadd l 0%Q.
+Definition prio_probs (user : list Q) : list Q := let s := fsum user in map (fun p => fdiv p s) user.
+
+(* self.priority_values *)
+Definition priority_values : list Z := [prio_val Interactive; prio_val Query; prio_val Batch].
+
+(* the generator as a function of the UNIFORM doubles behind its class draws: a stream entry is either the u that
+   self.random() returns inside choice, or a normal draw as before; the class is COMPUTED *)
+Inductive udraw :=
+| UUniform (u : Q)           (* the double the bit generator hands to choice *)
+| UNormal (mu x : Q).
+
+Definition resolve_draw (pp : list Q) (d : udraw) : option draw :=
+  match d with
+  | UNormal mu x => Some (DNormal mu x)
+  | UUniform u =>
+      match nth_error priority_values (choice_float pp u) with
+      | Some v => Some (DChoice v)
+      | None => None                    (* a[idx] with idx = len(a): IndexError (never for u < 1) *)
+      end
+  end.
+
+Fixpoint resolve (pp : list Q) (ds : list udraw) : option (list draw) :=
+  match ds with
+  | [] => Some []
+  | d :: t =>
+      match resolve_draw pp d, resolve pp t with
+      | Some x, Some r => Some (x :: r)
+      | _, _ => None
+      end
+  end.
+
+(* n calls of run_one_tick of WorkloadGenerator(interactive_prob, query_prob, batch_prob = user, ...) *)
+Definition gen_run_u (P : gparams) (user : list Q) (n : nat) (ds : list udraw)
+  : option (list (list gpipe) * gstate) :=
+  match resolve (prio_probs user) ds with
+  | Some dl => gen_run P n (gen_init dl)
+  | None => None
+  end.
 
 (* The source statements this file was transcribed from, as harness/extract_c15.py normalises them (docstrings,
    comments and logger calls dropped; one leading dot per indentation level); bridge obligation gen_source
